@@ -342,7 +342,7 @@ Definition keywords (ms : list msg) : list string :=
                                               then a else sadd s a) (m_seqs m) acc) ms [].
 
 (* ------------------------------------------------------------------ operations *)
-Inductive fetchkind := FFlags | FBodyPeek | FBody.
+Inductive fetchkind := FFlags | FBodyPeek | FBody | FBoth.   (* FBoth: FLAGS and a non-PEEK body item in one FETCH *)
 Inductive op :=
   | OSelect (s : Z) (m : string) (exam : bool)
   | OUnselect (s : Z)
@@ -588,6 +588,9 @@ Definition step (w : world) (o : op) : world * out :=
                     let items := flat_map (fun p => match znth ms (p - 1) with
                                                     | Some m => match k with
                                                                 | FFlags => [fetch_note p m uidc]
+                                                                | FBoth => [fetch_note p m uidc;
+                                                                            RBody p (if uidc then Some (m_uid m) else None)
+                                                                                  (m_cid m) (m_date m) (m_uid m)]
                                                                 | _ => [RBody p (if uidc then Some (m_uid m) else None)
                                                                               (m_cid m) (m_date m) (m_uid m)]
                                                                 end
@@ -601,6 +604,9 @@ Definition step (w : world) (o : op) : world * out :=
                       | FBody => {| m_key := m_key m; m_uid := m_uid m; m_cid := m_cid m; m_date := m_date m;
                                     m_seqs := if smem "unseen" (m_seqs m) then sadd "Seen" (srem "unseen" (m_seqs m))
                                               else m_seqs m |}
+                      | FBoth => {| m_key := m_key m; m_uid := m_uid m; m_cid := m_cid m; m_date := m_date m;
+                                    m_seqs := let q := srem "Recent" (m_seqs m) in
+                                              if smem "unseen" q then sadd "Seen" (srem "unseen" q) else q |}
                       | FBodyPeek => m
                       end in
                     let changed (p : Z) : bool :=
@@ -608,6 +614,7 @@ Definition step (w : world) (o : op) : world * out :=
                       | Some m => match k with
                                   | FFlags => smem "Recent" (m_seqs m)
                                   | FBody => smem "unseen" (m_seqs m)
+                                  | FBoth => smem "Recent" (m_seqs m) || smem "unseen" (m_seqs m)
                                   | FBodyPeek => false
                                   end
                       | None => false
